@@ -290,7 +290,8 @@ class Observer:
         """Returns the list of abstract frames (header blocks merged)."""
         buf = self.rest + data
         pre = False
-        if self.expect_preface and not self.seen_preface and buf.startswith(wire.PREFACE):
+        # (a client that is asked to initiate the connection a second time writes a second preface: reported as seen)
+        if self.expect_preface and buf.startswith(wire.PREFACE):
             buf = buf[len(wire.PREFACE):]
             self.seen_preface = True
             pre = True
